@@ -11,10 +11,14 @@
       a genuine defect, repaired), while the current spelling evaluates to 0 in that regime
       (`c12_current_q2_zero_when_exp_underflows`) and Q1 evaluates to 0 (`c12_q1_zero_on_overflow`);
   (3) thermal terms vanish as T → 0⁺ (`c12_thermal_tendsto_zero`): c(T) → c(0).
+  (4) "inside the computed range" is decided by the guard in qha_adapter.py as written now (`Generated.pressureGuard`, re-translated on
+      every run): a non-empty requested grid at or below P(T, V_last) for every T is never refused, one above it always is
+      (`c12_in_range_grid_not_refused`, `c12_out_of_range_grid_refused`) — no hidden margin in either direction.
   Out (sweep in harness/c12.py only): rounding, library exceptions, dtype, the IEEE behaviour between the two regimes.
 -/
 import CijProofs.Lemmas.QBounds
 import Generated.QExprs
+import CijProofs.Properties.C06
 import Mathlib.Topology.Order.Basic
 import Mathlib.Topology.Algebra.Order.Field
 import Mathlib.Analysis.SpecialFunctions.Exp
@@ -120,9 +124,27 @@ theorem c12_thermal_tendsto_zero {a : ℝ} (ha : 0 < a) (A B : ℝ) :
         · exact mul_le_mul_of_nonneg_right h1'.le (abs_nonneg B)
     _ = |A| + |B| := by ring
 
+/-! #### (4) the range guard, as written in the source now -/
+
+/-- a requested grid that lies inside the computed range (≤ P(T, V_last) for every T) is not refused -/
+theorem c12_in_range_grid_not_refused {α : Type} [Field α] [LinearOrder α] (pTvGpa : List (List α)) (desired : List α)
+    (hne : ∀ row ∈ pTvGpa, row ≠ []) (hp : pTvGpa ≠ []) (hd : desired ≠ [])
+    (h : ∀ row ∈ pTvGpa, ∀ x ∈ desired, x ≤ row.getLastD 0) :
+    Cij.AdapterGuardSource.evalGuard Generated.pressureGuard pTvGpa desired = some (.ok ()) :=
+  Cij.C06.source_guard_accepts_in_range pTvGpa desired hne hp hd h
+
+/-- a grid that overshoots the computed range anywhere is refused with ValueError (never silently extrapolated) -/
+theorem c12_out_of_range_grid_refused {α : Type} [Field α] [LinearOrder α] (pTvGpa : List (List α)) (desired : List α)
+    (hne : ∀ row ∈ pTvGpa, row ≠ []) (h : ∃ row ∈ pTvGpa, ∃ x ∈ desired, row.getLastD 0 < x) :
+    Cij.AdapterGuardSource.evalGuard Generated.pressureGuard pTvGpa desired = some (.error .valueError) := by
+  rw [Cij.C06.pressure_guard_is_source, Cij.C06.status_reject_overshoot pTvGpa desired hne h]
+
 /-! #### non-vacuity -/
 example : (0 : ℝ) < 1 ∧ Generated.q1Expr.eval Real.exp 1 = 1 / (Real.exp 1 - 1) := by
   refine ⟨one_pos, ?_⟩; rw [c12_q1_generated_real]; rfl
 example : shippedQ2.evalCls Cls.expAll Cls.powSame .sub1 ≠ [] := by decide +kernel
+example : Cij.AdapterGuardSource.evalGuard Generated.pressureGuard [[(9 : ℚ), 5], [8, 4]] [0, 2, 4] = some (.ok ()) := by decide +kernel
+example : Cij.AdapterGuardSource.evalGuard Generated.pressureGuard [[(9 : ℚ), 5], [8, 4]] [0, 2, 4, 6] = some (.error .valueError) := by
+  decide +kernel
 
 end Cij.C12
